@@ -30,7 +30,7 @@ func init() { core.Register(c19{}) }
 
 func (c19) ID() string { return "C19" }
 func (c19) Rule() string {
-	return "plans: <= 12 signature pushes over <= 3 subject artifacts (distinct envelopes, both media types, 100 B - 2 MiB, annotations), interleaved with foreign referrers (other artifact types, legacy artifact manifests of notation and of other types, subjects differing in exactly one field), hand-built hostile notation referrers (0 or 2 layers, the blob list under the other manifest kind's member name, declared blob size above the cap, 5 MiB manifest), failures injected into the two-step push (blob ok, manifest fails; config push fails), fetch failures, re-opening of the on-disk layout, listing order rotations, the subject presented in the forms callers hold it (plain / index-entry annotations / empty map / artifact type); stores: oras oci.Store on tmpfs or memory.Store behind the order-fixing, fault-injecting wrapper. One plan in ten is the concurrent variant: 2-4 clients, each with its own repository client over one shared registry, push distinct signatures for the same and for different subjects under tape-driven interleaving of their registry calls. non-trivial: a listing took place with at least two referrers of any kind on some subject, or after a failed push / re-open; distinct: hash of (operations, faults, listing results)"
+	return "plans: <= 12 signature pushes over <= 3 subject artifacts (distinct envelopes, both media types, 100 B - 2 MiB, annotations), interleaved with foreign referrers (other artifact types, legacy artifact manifests of notation and of other types, subjects differing in exactly one field), hand-built hostile notation referrers (0 or 2 layers, the blob list under the other manifest kind's member name, declared blob size above the cap, 5 MiB manifest), failures injected into the two-step push (blob ok, manifest fails; config push fails), fetch failures, the push that failed (or succeeded) last repeated with the same envelope, re-opening of the on-disk layout, listing order rotations, the subject presented in the forms callers hold it (plain / index-entry annotations / empty map / artifact type); stores: oras oci.Store on tmpfs or memory.Store behind the order-fixing, fault-injecting wrapper. One plan in ten is the concurrent variant: 2-4 clients, each with its own repository client over one shared registry, push distinct signatures for the same and for different subjects under tape-driven interleaving of their registry calls. non-trivial: a listing took place with at least two referrers of any kind on some subject, or after a failed push / re-open; distinct: hash of (operations, faults, listing results)"
 }
 func (c19) Components() map[string]string {
 	return map[string]string{
